@@ -330,6 +330,7 @@ type harnessDb struct {
 	events  []string
 	raised  int // vetoes actually raised by the harness constraint in the current transaction
 	sharedCtx boltz.MutateContext // the context reused by every transaction that carries the pseudo veto "@ctx"
+	opObs   string    // what the operation that has just been executed observed besides its error (AL1 / RL1 / LQ: the returned bools); runTx prints it as LB:<op index>:<obs>
 	factsTx *bbolt.Tx // when set, facts() projects the content seen by THIS (possibly uncommitted) transaction (C09 in-transaction checks)
 }
 
@@ -563,7 +564,7 @@ func (h *harnessDb) close() {
 // ---- histories -----------------------------------------------------------------------------
 
 type hOp struct {
-	Kind    string // C UP D AL RL FAIL
+	Kind    string // C UP D AL RL FAIL ; AL1 RL1 LQ = the single-link API of a link collection (store_c06_links.go)
 	Store   string
 	Id      string
 	Sys     bool
@@ -675,7 +676,7 @@ func (w *wiring) opText(op *hOp) string {
 		}
 	case "D":
 		fmt.Fprintf(&sb, "D %s %s", op.Store, hxs(op.Id))
-	case "AL", "RL":
+	case "AL", "RL", "AL1", "RL1", "LQ":
 		fmt.Fprintf(&sb, "%s %s %s %s %d", op.Kind, op.Store, hxs(op.Id), op.LinkF, len(op.Targets))
 		for _, t := range op.Targets {
 			fmt.Fprintf(&sb, " %s", hxs(t))
@@ -796,6 +797,8 @@ func (h *harnessDb) execOp(ctx boltz.MutateContext, op *hOp) error {
 		return gs.links[op.LinkF].AddLinks(ctx.Tx(), op.Id, op.Targets...)
 	case "RL":
 		return gs.links[op.LinkF].RemoveLinks(ctx.Tx(), op.Id, op.Targets...)
+	case "AL1", "RL1", "LQ":
+		return c06ExecLinkOp(h, ctx, op) // one AddLink / RemoveLink call per target, membership probes (store_c06_links.go)
 	case "FAIL":
 		return errors.New("caller error")
 	case "CT":
@@ -822,6 +825,7 @@ func (h *harnessDb) runTx(t *hTx) string {
 	h.mu.Unlock()
 
 	var results []string
+	var opObs []string
 	ctx := boltz.NewMutateContext(context.Background())
 	// a pseudo veto with store "@ctx" makes the transaction run with the database-wide shared mutate context
 	// instead of a fresh one (callers that keep one context and retry / continue with it): the contract is the
@@ -852,8 +856,13 @@ func (h *harnessDb) runTx(t *hTx) string {
 	}
 	err := run(ctx, func(ctx boltz.MutateContext) error {
 		results = nil // bbolt's Batch re-runs a failing function on its own
+		opObs = nil
 		for i := range t.Ops {
+			h.opObs = ""
 			e := h.execOp(ctx, &t.Ops[i])
+			if h.opObs != "" {
+				opObs = append(opObs, fmt.Sprintf("LB:%d:%s", i, h.opObs))
+			}
 			results = append(results, classify(e))
 			if e != nil {
 				return e
@@ -880,6 +889,9 @@ func (h *harnessDb) runTx(t *hTx) string {
 	sort.Strings(evs)
 	for _, e := range evs {
 		sb.WriteString(" " + e)
+	}
+	for _, o := range opObs {
+		sb.WriteString(" " + o)
 	}
 	sb.WriteString(h.reads())
 	if storeExtraReads != nil {
